@@ -153,6 +153,14 @@ class HTTP(BaseComponent):
         self.fire(write(sock, b'%s%s' % (bytes(res), bytes(headers))))
 
         if req.method == 'HEAD':
+            # no body, but the exchange ends here like any other
+            if res.stream and res.body and hasattr(res.body, 'close'):
+                res.body.close()
+            if res.close:
+                self.fire(close(sock))
+            if sock in self._clients:
+                del self._clients[sock]
+            res.done = True
             return
         if res.stream and res.body:
             try:
